@@ -377,25 +377,40 @@ Proof. vm_cast_no_check (eq_refl true). Qed.
 
 (* ------------------------------------------------------------------ (1) prefix ratios, exact over Q *)
 Lemma prefix_ratio_metric_ok :
-  forallb (fun h : unit * unit * Z => let '(u, b, k) := h in Qeq_bool (coef_dec u) (coef_dec b * Qpow10 k))
+  forallb (fun h : unit * unit * Z => let '(u, b, k) := h in
+             (same_linear_category u b && Qeq_bool (coef_dec u) (coef_dec b * Qpow10 k))%bool)
           (prefix_hits metric_prefixes) = true.
 Proof. vm_cast_no_check (eq_refl true). Qed.
 Theorem prefix_ratio_metric : forall u b k,
-  In (u, b, k) (prefix_hits metric_prefixes) -> (coef_dec u == coef_dec b * Qpow10 k)%Q.
+  In (u, b, k) (prefix_hits metric_prefixes) ->
+  same_linear_category u b = true /\ (coef_dec u == coef_dec b * Qpow10 k)%Q.
 Proof.
   intros u b k H. pose proof prefix_ratio_metric_ok as P. rewrite forallb_forall in P.
-  specialize (P _ H). cbv beta iota in P. apply Qeq_bool_iff. exact P.
+  specialize (P _ H). cbv beta iota in P. apply andb_true_iff in P. destruct P as [P1 P2].
+  split; auto. apply Qeq_bool_iff. exact P2.
 Qed.
 
 Lemma prefix_ratio_binary_ok :
-  forallb (fun h : unit * unit * Z => let '(u, b, k) := h in Qeq_bool (coef_exact u) (coef_exact b * Qpow2 k))
+  forallb (fun h : unit * unit * Z => let '(u, b, k) := h in
+             (same_linear_category u b && Qeq_bool (coef_exact u) (coef_exact b * Qpow2 k))%bool)
           (prefix_hits binary_prefixes) = true.
 Proof. vm_cast_no_check (eq_refl true). Qed.
 Theorem prefix_ratio_binary : forall u b k,
-  In (u, b, k) (prefix_hits binary_prefixes) -> (coef_exact u == coef_exact b * Qpow2 k)%Q.
+  In (u, b, k) (prefix_hits binary_prefixes) ->
+  same_linear_category u b = true /\ (coef_exact u == coef_exact b * Qpow2 k)%Q.
 Proof.
   intros u b k H. pose proof prefix_ratio_binary_ok as P. rewrite forallb_forall in P.
-  specialize (P _ H). cbv beta iota in P. apply Qeq_bool_iff. exact P.
+  specialize (P _ H). cbv beta iota in P. apply andb_true_iff in P. destruct P as [P1 P2].
+  split; auto. apply Qeq_bool_iff. exact P2.
+Qed.
+
+(* every identifier listed for two units is one recorded in the open known finding C17-dup-ident *)
+Lemma dup_idents_are_known_ok : forallb (fun i => str_in i known_dup_idents) dup_idents = true.
+Proof. vm_cast_no_check (eq_refl true). Qed.
+Theorem dup_idents_are_known : forall i, In i dup_idents -> In i known_dup_idents.
+Proof.
+  intros i H. pose proof dup_idents_are_known_ok as P. rewrite forallb_forall in P.
+  apply str_in_In. exact (P i H).
 Qed.
 
 (* ------------------------------------------------------------------ (3) exact-rational laws *)
